@@ -347,7 +347,7 @@ def all_points(tier):
 
 
 CLAUSES = [
-    Clause("crash", points(), check_point, quick=64, thorough=400, quick_shards=16, shards=16),
+    Clause("crash", points(), check_point, quick=64, thorough=60, quick_shards=16, shards=16),
 ]
 ENUMS = [
     Enum("all-crash-points", all_points, check_point, tiers=("thorough",), chunk=12,
